@@ -78,6 +78,10 @@ def gen_c06(rng, n, maxlen):
         else:
             u = rng.choice([0, 1, -1, 6, -6, rng.randint(-50, 50), rng.randint(-(1 << 40), 1 << 40), rng.choice(G.MACHINE_EDGES)])
             d = rng.choice([0, 1, 2, 3, 4, 6, rng.randint(1, 50), rng.randint(1, 1 << 40), min(abs(rng.choice(G.MACHINE_EDGES)), (1 << 63) - 1)])   # Num::new casts `down as isize`: below 2^63 only
+            if rng.random() < 0.15:
+                # the `down as isize` cast (C06_new_any): denominators from 2^63 on wrap; model and code are compared,
+                # the mathematical oracle is undefined there (latent defect outside the property, DESIGN 8.4)
+                d = rng.choice([1 << 63, (1 << 63) + 1, (1 << 64) - 1, (1 << 64) - 2, (1 << 63) + rng.randint(0, 1 << 62)])
             out.append(("nnew", ("nnew", ("I", u), ("I", d))))
     return out
 
